@@ -163,6 +163,8 @@ def run(pid: str, tier: str) -> int:
         return run_x02(pid, tier)
     if pid == 'X04':
         return run_x04(pid, tier)
+    if pid == 'X05':
+        return run_x05(pid, tier)
     if pid == 'X03':
         return run_x03(pid, tier)
     os.environ['VERIF_EVIDENCE_DIR'] = str(VERIF / 'evidence_extra')
@@ -258,4 +260,59 @@ def run_x04(pid: str, tier: str) -> int:
     chk.sample(next(e for e in events if any(l['k'] == 'close' for l in e.get('lines', []))))
     rejects = validate_traces(chk, 'PbnTrace', events, 'real PbnParser vs Pbn!ParseFile with commentary')
     report_rejects(chk, rejects, 'pbn-comments', key_of=lambda x: f'pbn-comments:{x.clause}')
+    return chk.finish()
+
+
+def _x05_job(job):
+    from . import table
+    from .session import run_session
+    tid, cfg, kind, completed = job
+    cfg = dict(cfg)
+    spec = cfg['policy_spec']
+    cfg['policy'] = lambda rnd: table.make_policy(spec, rnd)
+    cfg['outdir'] = str(tlc.workdir())
+    cfg['tag'] = tid
+    cfg['record_blocks'] = False
+    res = run_session(cfg)
+    r = cfg['via_main']['restart']
+    played = dict(cfg)
+    played['boards'] = cfg['boards'][r:] if 0 <= r < len(cfg['boards']) else cfg['boards'][:1]
+    e = table.session_event(tid, played, res, 'restart')
+    full = table.session_event(tid, cfg, res, 'restart')
+    e['file_boards'] = full['boards']
+    e['restart'] = r
+    e['format'] = cfg['via_main']['format']
+    return e
+
+
+def run_x05(pid: str, tier: str) -> int:
+    """Server main(): boards from a JSON / PBN file, restart index."""
+    from . import core, table
+    from .core import rng, pmap
+    core.EVIDENCE = VERIF / 'evidence_extra'
+    chk = Check(pid, tier)
+    chk.rule = ('a case is one run of the real command line (main()) on a board file with a '
+                'restart index, four real clients, one schedule')
+    r = rng('x05')
+    jobs = []
+    for q in range(24 if tier == 'quick' else 600):
+        nb = 1 + q % 4
+        boards = table.rand_boards(r, nb)
+        fmt = 'json' if q % 2 else 'pbn'
+        if fmt == 'pbn':
+            boards = [(dl, d, v, bid_.strip() or 'b', None) for (dl, d, v, bid_, dda) in boards]
+        restart = [0, nb - 1, q % nb, nb, -1, nb + 3][q % 6]
+        cfg = {'boards': boards, 'seed': r.randrange(1 << 30),
+               'styles': [{'auction': 'weak' if q % 3 else 'short', 'passout_boards': {1} if q % 5 == 0 else set()}] * 4,
+               'vary': q % 2 == 0, 'policy_spec': table.POLICIES[q % len(table.POLICIES)],
+               'via_main': {'format': fmt, 'restart': restart}}
+        jobs.append((f'm{q}', cfg, 'restart', None))
+    events = pmap(_x05_job, jobs, chunk=2)
+    for e in events:
+        chk.count(e['tid'])
+    chk.extra['refused_indices'] = sum(1 for e in events if not (0 <= e['restart'] < len(e['file_boards'])))
+    chk.sample({k: events[1][k] for k in ('tid', 'restart', 'format', 'done')})
+    rejects = validate_traces(chk, 'TableTrace', events, 'main() with a board file and restart index vs TableObs',
+                              shards=8)
+    report_rejects(chk, rejects, 'restart', key_of=lambda x: f'restart:{x.clause}'[:160])
     return chk.finish()
